@@ -9,8 +9,8 @@ def check(id, cat, text, note, technique, ref):
 
 T_AST = "custom static analyser over go/packages + go/types ASTs: "
 check("C01", "other", "Necessary structural conditions of the accepted grammar, checked on every return site, table and path of the four parsers; does not decide the scanner loops.",
-      "Loop invariants of the three hand-written scanners and index-panic freedom are NOT decided (DESIGN §10). Vocabulary oracle transcribed from the specifications.",
-      T_AST + "return-site census; go/cfg path rules; cursor logic of the fixed-order parsers tabulated into a finite automaton and compared with the specification's order automaton by a product walk (acceptance, error kinds, Set called on every consumed element); v3 defined-once / missing-metric logic interpreted symbolically over flags or bit sets for every subset of metrics; vocabulary tables compared with the specification", "DESIGN §5 C01, AS-BUILT 14, 22-23, 27, 38")
+      "That the hand-written scanners hand exactly the '/'-separated elements to the cursor logic is NOT decided (DESIGN §10); their index and slice expressions on the input text ARE proved in range (R01.bounds: zone-domain abstract interpretation with widening). Vocabulary oracle transcribed from the specifications.",
+      T_AST + "return-site census; go/cfg path rules; abstract interpretation in the zone domain (difference-bound matrices, widening) proving every index/slice expression on input text in range; cursor logic of the fixed-order parsers tabulated into a finite automaton and compared with the specification's order automaton by a product walk (acceptance, error kinds, Set called on every consumed element); v3 defined-once / missing-metric logic interpreted symbolically over flags or bit sets for every subset of metrics; vocabulary tables compared with the specification", "DESIGN §5 C01, AS-BUILT 14, 22-23, 27, 38")
 check("C02", "other", "Round trip reduced to proved layout facts (C07) plus serializer/parser table agreement; decided for every metric and value.",
       "The parser loop accepting the emitted string is shared with C01 and not decided.", T_AST + "symbolic interpretation of Vector over the strings Get prints (helpers inlined, constant-table loops unrolled, branches merged, receiver-bit tests lifted to Get strings) giving the exact shape of the output; Set/Get layout models (syntactic, or read off runs of Set on a symbolic receiver); one direction of the parser automaton comparison (accepts everything Vector writes)", "DESIGN §5 C02, AS-BUILT 20, 24, 31-34")
 check("C03", "other", "The code evaluates the specification's expressions with the specification's constants on the right inputs (canonical formula trees, weight tables, byte routing = oracle) AND every rounding step/comparison is farther from its discontinuity than any float64 evaluation error, for every metric combination — so the returned one-decimal values are exactly the specification's.",
